@@ -64,6 +64,9 @@ Prev(h)   == IF Len(h.socks) < 2 THEN 0 ELSE h.socks[Len(h.socks) - 1]
 NMin(h)   == IF h.min = 0 /\ h.max = 0 THEN 30000 ELSE h.min
 NMax(h)   == IF h.min = 0 /\ h.max = 0 THEN 30000 ELSE h.max
 
+\* keep one clause from filling the monitor's violation cap (Mon!V keeps 40 records)
+Few(viol, clause, n) == Cardinality({v \in viol : v.clause = clause}) < n
+
 HopStep(m, e, ln) ==
   LET h == m.h IN
   CASE e.ev = "New" ->
@@ -97,7 +100,7 @@ HopStep(m, e, ln) ==
          [m EXCEPT !.h.rEarly = h.rEarly \ {e.r}, !.h.rLate = h.rLate \ {e.r},
             !.h.arr = IF e.ok THEN h.arr \ {e.tag} ELSE h.arr,
             !.viol = VAll(m.viol, e, ln,
-              << <<"ClosedReadFails",   e.r \in h.rLate /\ e.ok>>,
+              << <<"ClosedReadFails",   e.r \in h.rLate /\ e.ok /\ Few(m.viol, "ClosedReadFails", 8)>>,
                  <<"DRIFT_ReadUnknown", e.ok /\ e.tag \notin h.seen>> >>)]
     [] e.ev = "Arrive" ->
          \* a packet reaches local socket e.sock; the property promises delivery when that socket is the
